@@ -14,7 +14,7 @@ import (
 func init() {
 	register(&propDef{
 		id:      "C24",
-		explain: "Structural necessary conditions of 'range requests yield exactly the requested bytes or a proper refusal': (E10) on every acyclic path of ParseByteRange (decided in the zone abstract domain, with the post-condition 'ParseUint returns a non-negative value when its error is nil'), every success return satisfies 0 <= startPos <= endPos < contentLength; (R2) in the FS handler a ParseByteRange error leads, on every path, to the reader being closed and a 416 answer; success leads to UpdateByteRange and SetContentRange being called with the parsed positions and to status 206; a failed UpdateByteRange closes the reader; (R3) not-modified and HEAD branches give the reader back (decrement / close) before returning; (R-pool) a pooled file reader is re-armed before it goes back to its pool: every field that UpdateByteRange sets and Read/WriteTo consult is re-assigned by Close on every path; (R-enc) every assignment of Content-Encoding in the FS handler is control-dependent on the opened file's own compressed flag (fasthttp may decline to compress a file although the request negotiated it); (R-fresh) an on-disk compressed copy that already existed is opened only after its modification time was compared with the original's, unless the same path has just written it; (R-stamp) where a created file is stamped with the original's modification time (os.Chtimes), the stamp is reached only after that file was closed - a later write would reset it; (R-bound) a reader that serves the window [startPos, endPos) of a file through ReadAt never asks for more than the window holds: on every path to every ReadAt call - from the function entry, or from the head of the enclosing loop with the loop variables unconstrained, so the bound has to be re-established in every iteration - the length of the buffer handed over is at most endPos minus the offset handed over (zone domain). Not decided: the bytes served, compressed variants, date comparison to the second.",
+		explain: "Structural necessary conditions of 'range requests yield exactly the requested bytes or a proper refusal': (E10) on every acyclic path of ParseByteRange (decided in the zone abstract domain, with the post-condition 'ParseUint returns a non-negative value when its error is nil'), every success return satisfies 0 <= startPos <= endPos < contentLength; (R2) in the FS handler a ParseByteRange error leads, on every path, to the reader being closed and a 416 answer; success leads to UpdateByteRange and SetContentRange being called with the parsed positions and to status 206; a failed UpdateByteRange closes the reader; (R3) not-modified and HEAD branches give the reader back (decrement / close) before returning; (R-pool) a pooled file reader is re-armed before it goes back to its pool: every field that UpdateByteRange sets and Read/WriteTo consult is re-assigned by Close on every path; (R-enc) every assignment of Content-Encoding in the FS handler is control-dependent on the opened file's own compressed flag (fasthttp may decline to compress a file although the request negotiated it); (R-fresh) an on-disk compressed copy that already existed is opened only after its modification time was compared with the original's, unless the same path has just written it; (R-stamp) where a created file is stamped with the original's modification time (os.Chtimes), the stamp is reached only after that file was closed - a later write would reset it; (R-bound) a reader that serves the window [startPos, endPos) of a file through ReadAt never asks for more than the window holds: on every path to every ReadAt call - from the function entry, or from the head of the enclosing loop with the loop variables unconstrained, so the bound has to be re-established in every iteration - the length of the buffer handed over is at most endPos minus the offset handed over (zone domain). (R-sym) the mod times of a file and of its compressed copy are compared in one routine, and on every path on which it reports 'not stale' the difference-bound domain entails -1s < d < 1s - both directions. Not decided: the bytes served, the sub-second tolerance itself, date comparison to the second.",
 		run:     runC24,
 	})
 }
@@ -251,6 +251,7 @@ func runC24(p *Prog, r *Report) {
 	encodingFollowsFile(p, r)
 	compressedCopyIsFresh(p, r)
 	stampAfterLastWrite(p, r)
+	staleCopyTestIsSymmetric(p, r)
 }
 
 // dependsOnModTime: the value is computed from a ModTime() result.
@@ -568,4 +569,169 @@ func stampAfterLastWrite(p *Prog, r *Report) {
 		}
 	}
 	r.Floor("R-stamp", "files stamped with the original's modification time", n, 1)
+}
+
+// staleCopyTestIsSymmetric (C24.R-sym): a compressed copy is stamped with the mod time of the file it was made from;
+// whether an existing copy may be served is decided by comparing the two mod times. (1) That comparison lives in one
+// routine (every Time.Sub of two ModTime() values in the package is inside it, and the reuse sites call it);
+// (2) on every path on which that routine reports 'not stale', the difference d of the two times is entailed, in
+// the difference-bound domain, to lie strictly within one second on BOTH sides: -1s < d < 1s. A one-sided test
+// ('the file is at least a second newer') keeps serving the copy of a previous version after a rollback that keeps
+// mod times.
+func staleCopyTestIsSymmetric(p *Prog, r *Report) {
+	isModTime := func(v ssa.Value) bool {
+		for d := 0; d < 4; d++ {
+			switch x := v.(type) {
+			case *ssa.Call:
+				return x.Call.IsInvoke() && x.Call.Method.Name() == "ModTime" || (x.Call.StaticCallee() != nil && x.Call.StaticCallee().Name() == "ModTime")
+			case *ssa.Parameter:
+				return x.Type().String() == "time.Time"
+			case *ssa.UnOp:
+				v = x.X
+				continue
+			}
+			return false
+		}
+		return false
+	}
+	var helper *ssa.Function
+	var diff *ssa.Call
+	nsub := 0
+	for _, fn := range p.funcsIn("") {
+		if !strings.HasSuffix(p.Fset.Position(fn.Pos()).Filename, "fs.go") {
+			continue
+		}
+		allCalls(fn, func(b *ssa.BasicBlock, c ssa.CallInstruction) {
+			f := c.Common().StaticCallee()
+			if f == nil || f.Name() != "Sub" || recvTypeName(f) != "Time" || len(c.Common().Args) != 2 {
+				return
+			}
+			if !isModTime(c.Common().Args[0]) || !isModTime(c.Common().Args[1]) {
+				return
+			}
+			nsub++
+			if cv, ok := c.(*ssa.Call); ok && fn.Signature.Results().Len() == 1 && isBool(fn.Signature.Results().At(0).Type()) && len(fn.Params) == 2 {
+				helper, diff = fn, cv
+			}
+		})
+	}
+	r.Floor("R-sym", "differences of two mod times in fs.go", nsub, 1)
+	r.Check("R-sym", "the mod times of a file and of its compressed copy are compared in one routine", nsub == 1 && helper != nil, "fs.go",
+		fmt.Sprintf("%d Time.Sub calls over two mod times, comparison routine found: %v - a reuse site with its own comparison escapes the symmetric test", nsub, helper != nil))
+	if helper == nil {
+		return
+	}
+	ncall := 0
+	for _, fn := range p.funcsIn("") {
+		allCalls(fn, func(b *ssa.BasicBlock, c ssa.CallInstruction) {
+			if c.Common().StaticCallee() == helper {
+				ncall++
+			}
+		})
+	}
+	r.Floor("R-sym", "call sites of the staleness test", ncall, 2)
+	const second = int64(1000000000)
+	nfalse, bad := 0, 0
+	detail := ""
+	check := func(guards []guardAtom, extra *ssa.BinOp) {
+		nfalse++
+		z := newZone()
+		nd := z.node(diff)
+		// comparisons of -d with a constant are comparisons of d with the negated constant, the other way round
+		assume := func(bo *ssa.BinOp, outcome bool) {
+			if neg, ok := bo.X.(*ssa.UnOp); ok && neg.Op == token.SUB && neg.X == ssa.Value(diff) {
+				if k, isK := constInt(bo.Y); isK {
+					op := bo.Op
+					if !outcome {
+						switch op {
+						case token.LSS:
+							op = token.GEQ
+						case token.LEQ:
+							op = token.GTR
+						case token.GTR:
+							op = token.LEQ
+						case token.GEQ:
+							op = token.LSS
+						}
+					}
+					switch op {
+					case token.LSS: // -d < k  <=>  0 - d <= k-1
+						z.add(0, 0, nd, 0, k-1)
+					case token.LEQ:
+						z.add(0, 0, nd, 0, k)
+					case token.GTR: // -d > k  <=>  d - 0 <= -k-1
+						z.add(nd, 0, 0, 0, -k-1)
+					case token.GEQ:
+						z.add(nd, 0, 0, 0, -k)
+					}
+					return
+				}
+			}
+			z.assumeCmp(bo.Op, bo.X, bo.Y, outcome)
+		}
+		for _, g := range guards {
+			if bo, ok := g.Cond.(*ssa.BinOp); ok {
+				assume(bo, g.Pol)
+			}
+		}
+		if extra != nil {
+			assume(extra, false)
+		}
+		if z.infeasible() {
+			return
+		}
+		up := z.entails(nd, 0, 0, 0, second-1)
+		lo := z.entails(0, 0, nd, 0, second-1)
+		if !up || !lo {
+			bad++
+			detail = fmt.Sprintf("on a 'not stale' path: d < 1s entailed: %v, d > -1s entailed: %v", up, lo)
+		}
+	}
+	for _, b := range helper.Blocks {
+		rt, ok := b.Instrs[len(b.Instrs)-1].(*ssa.Return)
+		if !ok {
+			continue
+		}
+		rr := returnResults(rt)
+		if len(rr) != 1 {
+			continue
+		}
+		switch v := rr[0].(type) {
+		case *ssa.Phi:
+			for i, e := range v.Edges {
+				pr := v.Block().Preds[i]
+				gs := guardsOf(pr)
+				// the edge itself: pr may end in the If whose outcome selects this edge
+				if iff, ok := pr.Instrs[len(pr.Instrs)-1].(*ssa.If); ok {
+					if bo, ok := iff.Cond.(*ssa.BinOp); ok {
+						gs = append(gs, guardAtom{Cond: bo, Pol: pr.Succs[0] == v.Block()})
+					}
+				}
+				switch ev := e.(type) {
+				case *ssa.Const:
+					if ev.Value != nil && ev.Value.ExactString() == "false" {
+						check(gs, nil)
+					}
+				case *ssa.BinOp:
+					check(gs, ev)
+				default:
+					nfalse++
+					bad++
+					detail = "the result is not a comparison of the difference"
+				}
+			}
+		case *ssa.BinOp:
+			check(guardsOf(b), v)
+		case *ssa.Const:
+			if v.Value != nil && v.Value.ExactString() == "false" {
+				check(guardsOf(b), nil)
+			}
+		default:
+			nfalse++
+			bad++
+			detail = "the result is not a comparison of the difference"
+		}
+	}
+	r.Check("R-sym", funcName(helper)+": 'not stale' entails that the two mod times differ by less than a second in either direction", bad == 0 && nfalse > 0, p.Pos(helper.Pos()),
+		detail+" - a file replaced by an OLDER version that keeps its mod time is served from the compressed copy of the version before")
 }
